@@ -364,6 +364,40 @@ def autoCliTree (body : Body) (asPos : Bool) (comps : Comps) (path : Key) (g : G
       | some comp => runComponent body comp (subAt key cfg)
     | _ => .error .crash
 
+/-! ### `enable_path`: where a given value may be replaced by the content of the file it names -/
+
+/-- how `_add_signature_parameter` sees an annotation when it decides `enable_path` -/
+inductive TyClass where
+  /-- `annotation in {str, int, float, bool}`: the branch that computes `enable_path` is not even reached -/
+  | fastPath
+  /-- `ActionTypeHint.is_subclass_typehint(annotation, all_subtypes=False)` -/
+  | subclass
+  /-- `ActionTypeHint.is_return_subclass_typehint(annotation)` (a callable returning a class) -/
+  | returnsSubclass
+  /-- every other annotation that goes through the type-hint action: Optional, List, Literal, Enum, Union[int, str], Any … -/
+  | other
+deriving DecidableEq, Repr
+
+/-- `enable_path = sub_configs and (is_subclass_typehint or ActionTypeHint.is_return_subclass_typehint(annotation))` -/
+def enablePath (subConfigs : Bool) : TyClass → Bool
+  | .fastPath => false
+  | .subclass => subConfigs
+  | .returnsSubclass => subConfigs
+  | .other => false
+
+/-- `parse_value_or_config(val, enable_path=…)` in `ActionTypeHint._check_type`: where `enable_path` is set, a value that
+    names a readable file (`fs v = some content`) is replaced by the file's loaded content; elsewhere it stays as given -/
+def loadGiven (fs : Val → Option Val) (ep : String → Bool) (given : KV) : KV :=
+  given.map (fun e => (e.1, if ep e.1 then (fs e.2).getD e.2 else e.2))
+
+/-- `auto_cli` in a world with files: `tcTop` / `tcSub` classify the annotations of the function's / constructor's and of
+    the method's parameters; `auto_cli` passes `sub_configs=True` -/
+def autoCliFS (body : Body) (asPos : Bool) (comp : Comp) (g : Given) (fs : Val → Option Val)
+    (tcTop tcSub : String → TyClass) : Except Err Run :=
+  autoCli body asPos comp
+    { g with top := loadGiven fs (fun n => enablePath true (tcTop n)) g.top,
+             sub := loadGiven fs (fun n => enablePath true (tcSub n)) g.sub }
+
 /-! ### the specification -/
 
 /-- value given, else the signature default, else `None` for an `Optional` parameter without default -/
